@@ -1,7 +1,8 @@
 /- model driver for C18: one operation per input line, one canonical line out -/
 import Batchie.Model.DriverLoop
 import Batchie.Model.RandIO
+import Batchie.Model.ArgParse
 
 open Batchie
 
-def main : IO Unit := DriverLoop.run [RandIO.handle]
+def main : IO Unit := DriverLoop.run [RandIO.handle, ArgParse.handle]
